@@ -119,6 +119,67 @@ def check_rt(recipe) -> list[Fail]:
     return fails
 
 
+def check_multi(recipe) -> list[Fail]:
+    """several DIFFERENT geometries in one xyz text (same or different atom counts): every frame keeps its own elements and coordinates"""
+    import molli as ml
+    from vf.core import exc_sig
+
+    fails: list[Fail] = []
+    geoms = []
+    for r in recipe["mols"]:
+        atoms = chem.build_atoms(r)
+        geoms.append(ml.CartesianGeometry(atoms, name=r["name"], coords=np.array(r["coords"], dtype=float).reshape((len(atoms), 3))))
+    text = "".join(g.dumps_xyz() for g in geoms)
+    try:
+        for entry in recipe["entries"]:
+            if entry == "geom":
+                frames = ml.CartesianGeometry.loads_all_xyz(text)
+            elif entry == "mol":
+                frames = ml.Molecule.loads_all_xyz(text)
+            elif entry == "stream":
+                frames = ml.Structure.load_all_xyz(io.StringIO(text))
+            else:
+                frames = list(ml.CartesianGeometry.yield_from_xyz(io.StringIO(text)))
+            if len(frames) != len(geoms):
+                return [Fail("multi:frame-count-differs", f"{entry}: {len(geoms)} -> {len(frames)}")]
+            for i, (g, f) in enumerate(zip(geoms, frames)):
+                _cmp_geom(g.atoms, g.coords, f, fails, "multi", f"{entry} frame {i} of {len(geoms)} (sizes {[x.n_atoms for x in geoms]})")
+                if fails:
+                    return fails
+    except Exception as e:
+        s_ = exc_sig(e)
+        if s_ is None:
+            raise
+        fails.append(Fail(f"multi:raises:{s_}", repr(e)[:300]))
+    return fails
+
+
+def classify_multi(recipe):
+    sizes = [len(r["atoms"]) for r in recipe["mols"]]
+    same = any(a == b and a > 0 for a, b in zip(sizes, sizes[1:]))
+    els = [[a["el"] for a in r["atoms"]] for r in recipe["mols"]]
+    differ = any(sa == sb and ea != eb for sa, sb, ea, eb in zip(sizes, sizes[1:], els, els[1:]))
+    return differ, ["consecutive_frames_same_size" if same else "sizes_differ"] + (["same_size_different_elements"] if differ else [])
+
+
+def strat_multi(tier):
+    @st.composite
+    def case(draw):
+        base = draw(chem.molecule_recipe(max_atoms=6, max_bonds=0, attribs=False, mol2_safe=True, min_atoms=1).map(_xyzify))
+        n = len(base["atoms"])
+        mols = [base]
+        for _ in range(draw(st.integers(1, 3))):
+            if draw(st.booleans()):
+                # same atom count, other elements / order
+                other = draw(chem.molecule_recipe(max_atoms=n, max_bonds=0, attribs=False, mol2_safe=True, min_atoms=n).map(_xyzify))
+            else:
+                other = draw(chem.molecule_recipe(max_atoms=6, max_bonds=0, attribs=False, mol2_safe=True, min_atoms=0).map(_xyzify))
+            mols.append(other)
+        return {"mols": mols, "entries": draw(st.lists(st.sampled_from(["geom", "mol", "stream", "yield"]), min_size=1, max_size=2, unique=True))}
+
+    return case()
+
+
 def classify_rt(recipe):
     r = recipe["mol"]
     cs = r["coords"] if recipe["kind"] != "ConformerEnsemble" else [c for f in r["confs"] for c in f]
@@ -245,6 +306,9 @@ def strat_units(tier):
 
 
 LEGS = [
+    Leg("multi", check_multi, classify_multi, strategy=strat_multi, n={"quick": 800, "thorough": 12000}, shards={"quick": 16, "thorough": 32},
+        rule="2-4 DIFFERENT generated geometries written one after another into one xyz text (about half of the consecutive pairs have the same atom count but other elements / order), read through loads_all_xyz / load_all_xyz(stream) / yield_from_xyz for three classes; "
+             "non-trivial = two consecutive frames of equal size and different elements"),
     Leg("rt", check_rt, classify_rt, strategy=strat_rt, n={"quick": 3000, "thorough": 45000}, shards={"quick": 16, "thorough": 32},
         rule="generated CartesianGeometry / Structure / Molecule (0-12/30 atoms, all elements, dummy atoms, |x| up to 1e7, NaN, inf, -0.0) and ensembles of 1-5 frames; "
              "dumps_xyz -> loads / load(stream) / loads_all / load_all(stream) / ConformerEnsemble.loads_xyz; non-trivial = >=2 atoms with distinct coordinates"),
